@@ -100,6 +100,13 @@ type Variant struct {
 	StdoutFailAfter int    `json:"stdout_fail_after,omitempty"`
 	GateReads       bool   `json:"gate_reads,omitempty"`
 	SchedSeed       uint64 `json:"sched_seed,omitempty"`
+	// Warmup > 0 (engine harness): the Engine and Querier that answer the query have
+	// answered Warmup evaluations before, in the same bubble against the same daemon:
+	// of WarmupQuery if set, of the plan's own query otherwise. What the earlier
+	// evaluations asked of the daemon is not part of the outcome (Outcome.WarmupOpens
+	// counts it); whatever they left behind in the long-lived objects must not show.
+	Warmup      int    `json:"warmup,omitempty"`
+	WarmupQuery string `json:"warmup_query,omitempty"`
 }
 
 // Violation describes what a check found.
